@@ -159,6 +159,13 @@ def run(tier):
                                  "family": c01.family(src, t["ver"])},
                                 {"src": t["src"], "ver": t["ver"], "fail": f})
     check.cov["trees_checked"] = ntrees
+    # tokens of an earlier tree survive later parses
+    for t, r in progs.retain_results(check, wp, inputs.programs(check, tier), core.seed() + 4, 150 if tier == "quick" else 2000):
+        if r.get("changed") == "tree-of-an-earlier-parse-changed" and r.get("part") in ("tokens", "structure-or-values"):
+            check.violation({"class": "tokens-of-an-earlier-tree-changed", "part": r.get("part")},
+                            {"task": {"src": t["src"], "ver": t["ver"], "others": len(t["others"])}, "observed": r})
+        elif r.get("changed") == "source-buffer-changed":
+            check.violation({"class": "source-buffer-changed"}, {"task": {"src": t["src"], "ver": t["ver"]}, "observed": r})
     # (4) the line table (NewLines.tla): Append/GetLine behaviours replayed, and every LF/CR/other string in every
     # lexical context of the real scanner
     mn, mb = (5, 2) if tier == "quick" else (7, 2)
